@@ -71,6 +71,19 @@ def run(ctx):
         cands = [mk(r if equal else rng.randint(1, 7)) for _ in range(n)]
         if n >= 3 and rng.random() < 0.5:
             cands[rng.randrange(n)] = list(cands[rng.randrange(n)])       # duplicate
+        long_q = (not nd) and it % 45 == 21
+        if long_q:
+            # scale-up slice: long queries (64-200 points) against delayed / scaled copies: the envelope of the lower
+            # bound spans many points and the window matters
+            r = rng.choice([64, 65, 80, 96, 128, 200])
+            n = rng.randint(3, 8)
+            q = gen.structured_series(rng, r, rng.choice(["pulse", "walk", "steps", "periodic"]))
+            cands = []
+            for _c in range(n):
+                sh_ = rng.randint(0, 6)
+                cands.append([q[max(0, i_ - sh_)] + rng.choice([0.0, 0.1, 0.5]) * rng.random() for i_ in range(r)])
+            equal = True
+            ctx.count("long_query_cases")
         opts = {}
         if exact_tie:
             # constant query and candidates: lower bound == distance == an exactly representable number, so a user
@@ -87,6 +100,8 @@ def run(ctx):
             opts["inner_dist"] = "euclidean"
         if rng.random() < 0.5:
             opts["window"] = rng.randint(1, 7)
+        if long_q:
+            opts["window"] = rng.choice([2, 4, 6, 10])
         if rng.random() < 0.3:
             opts["penalty"] = rng.choice([0.1, 1.0])
         use_lb = rng.random() < 0.6
